@@ -558,6 +558,36 @@ for _n in ("__add__", "__radd__", "__sub__", "__rsub__", "__mul__", "__rmul__", 
     setattr(SymI, _n, _int_closed(_n))
 
 
+class SymBox(Sym):
+    """A symbolic value held in a *mutable* container - a 0-d numpy array passed where a scalar is expected.  It reads like
+    the value; in-place operators (`x *= y`, `x += y`, ...) write the result back into the same object, as numpy does
+    for a 0-d array, so every alias of it (the caller's variable included) sees the change."""
+    __slots__ = ()
+
+    def _inplace(self, r):
+        if not isinstance(r, Sym):
+            r = lift(r)
+        self.p = r.p
+        return self
+
+    def __iadd__(self, o): return self._inplace(Sym(self.p) + o)
+    def __isub__(self, o): return self._inplace(Sym(self.p) - o)
+    def __imul__(self, o): return self._inplace(Sym(self.p) * o)
+    def __itruediv__(self, o): return self._inplace(Sym(self.p) / o)
+    def __ipow__(self, o): return self._inplace(Sym(self.p) ** o)
+
+    # numpy-array surface a 0-d array has
+    ndim = 0
+    shape = ()
+    size = 1
+
+    def copy(self):
+        return Sym(self.p)
+
+    def item(self):
+        return Sym(self.p)
+
+
 def simp(p: Poly):
     """Concrete results come back as Q so that Python-level uses (range, indices) keep working."""
     if p.is_const():
